@@ -32,6 +32,10 @@ type Ctx struct {
 	orc   *bufio.Writer
 	stats Stats
 
+	// Mute: the engine's command/observation lines are not written (oracle-only streams whose
+	// behaviour the model does not express); the T lines still are, so streams stay aligned.
+	Mute bool
+
 	traceID    string
 	traceLines []string
 	nontrivial bool
@@ -96,7 +100,9 @@ func (c *Ctx) endTrace() {
 // Cmd writes one command line (read by the Lean driver).
 func (c *Ctx) Cmd(format string, a ...any) {
 	l := fmt.Sprintf(format, a...)
-	fmt.Fprintln(c.cmds, l)
+	if !c.Mute {
+		fmt.Fprintln(c.cmds, l)
+	}
 	c.traceLines = append(c.traceLines, l)
 	c.stats.Commands++
 	if i := strings.IndexByte(l, ' '); i > 0 {
@@ -107,7 +113,11 @@ func (c *Ctx) Cmd(format string, a ...any) {
 }
 
 // Obs writes one implementation observation line.
-func (c *Ctx) Obs(format string, a ...any) { fmt.Fprintf(c.impl, format+"\n", a...) }
+func (c *Ctx) Obs(format string, a ...any) {
+	if !c.Mute {
+		fmt.Fprintf(c.impl, format+"\n", a...)
+	}
+}
 
 // Nontrivial marks the current trace as non-trivial by the engine's rule.
 func (c *Ctx) Nontrivial() { c.nontrivial = true }
@@ -186,6 +196,7 @@ func main() {
 	tier := fs.String("tier", "quick", "tier")
 	out := fs.String("out", ".", "output directory")
 	replay := fs.String("replay", "", "replay command file")
+	_ = fs.Int("preattach", 0, "crdt engine: one replica in N edits before SetActor")
 	_ = fs.Parse(os.Args[2:])
 	fn, ok := engines[name]
 	if !ok {
